@@ -85,6 +85,11 @@ pub fn view(e: &VfsEntry) -> EntryView {
 thread_local! {
     /// set when the accessors of a VfsEntry disagree with those of the value it wraps (C13)
     pub static ENTRY_MISMATCH: std::cell::RefCell<Option<String>> = const { std::cell::RefCell::new(None) };
+    /// how often the macro under test evaluated its path argument (C20: a macro is a call, its
+    /// arguments are evaluated once)
+    pub static MACRO_ARG_EVALS: std::cell::Cell<u32> = const { std::cell::Cell::new(0) };
+    /// set when a macro that returned normally evaluated its path argument more than once
+    pub static MACRO_TWICE: std::cell::RefCell<Option<String>> = const { std::cell::RefCell::new(None) };
     /// set when follow(true) on a copy of a followed entry swaps path and alt a second time (C10)
     pub static FOLLOW_TWICE: std::cell::RefCell<Option<String>> = const { std::cell::RefCell::new(None) };
 }
@@ -247,65 +252,78 @@ fn run_macro<V: VirtualFileSystem>(v: &V, name: &str, a: &str, b: &Option<String
     let m = mode.unwrap_or(0o755);
     let a = PathBuf::from(a);
     let bp = PathBuf::from(&bb);
+    let raw: Vec<u8> = d.as_ref().map(|x| x.0.clone()).unwrap_or_default();
+    MACRO_ARG_EVALS.with(|c| c.set(0));
+    // the path argument is an expression with a side effect: it counts its own evaluations
+    macro_rules! arg {
+        () => {{
+            MACRO_ARG_EVALS.with(|c| c.set(c.get() + 1));
+            &a
+        }};
+    }
     match name {
         "exists" => {
-            assert_vfs_exists!(v, &a);
+            assert_vfs_exists!(v, arg!());
         },
         "no_exists" => {
-            assert_vfs_no_exists!(v, &a);
+            assert_vfs_no_exists!(v, arg!());
         },
         "is_dir" => {
-            assert_vfs_is_dir!(v, &a);
+            assert_vfs_is_dir!(v, arg!());
         },
         "no_dir" => {
-            assert_vfs_no_dir!(v, &a);
+            assert_vfs_no_dir!(v, arg!());
         },
         "is_file" => {
-            assert_vfs_is_file!(v, &a);
+            assert_vfs_is_file!(v, arg!());
         },
         "no_file" => {
-            assert_vfs_no_file!(v, &a);
+            assert_vfs_no_file!(v, arg!());
         },
         "is_symlink" => {
-            assert_vfs_is_symlink!(v, &a);
+            assert_vfs_is_symlink!(v, arg!());
         },
         "no_symlink" => {
-            assert_vfs_no_symlink!(v, &a);
+            assert_vfs_no_symlink!(v, arg!());
         },
         "read_all" => {
-            assert_vfs_read_all!(v, &a, text);
+            assert_vfs_read_all!(v, arg!(), text);
         },
         "readlink" => {
-            assert_vfs_readlink!(v, &a, &bp);
+            assert_vfs_readlink!(v, arg!(), &bp);
         },
         "readlink_abs" => {
-            assert_vfs_readlink_abs!(v, &a, &bp);
+            assert_vfs_readlink_abs!(v, arg!(), &bp);
         },
         "mkdir_p" => {
-            assert_vfs_mkdir_p!(v, &a);
+            assert_vfs_mkdir_p!(v, arg!());
         },
         "mkdir_m" => {
-            assert_vfs_mkdir_m!(v, &a, m);
+            assert_vfs_mkdir_m!(v, arg!(), m);
         },
         "mkfile" => {
-            assert_vfs_mkfile!(v, &a);
+            assert_vfs_mkfile!(v, arg!());
         },
         "write_all" => {
-            assert_vfs_write_all!(v, &a, &text);
+            assert_vfs_write_all!(v, arg!(), &raw);
         },
         "copyfile" => {
-            assert_vfs_copyfile!(v, &a, &bp);
+            assert_vfs_copyfile!(v, arg!(), &bp);
         },
         "symlink" => {
-            assert_vfs_symlink!(v, &a, &bp);
+            assert_vfs_symlink!(v, arg!(), &bp);
         },
         "remove" => {
-            assert_vfs_remove!(v, &a);
+            assert_vfs_remove!(v, arg!());
         },
         "remove_all" => {
-            assert_vfs_remove_all!(v, &a);
+            assert_vfs_remove_all!(v, arg!());
         },
         _ => return Outcome::Err("Harness::UnknownMacro".into()),
+    }
+    let n = MACRO_ARG_EVALS.with(|c| c.get());
+    if n != 1 {
+        MACRO_TWICE.with(|m| *m.borrow_mut() = Some(format!("assert_vfs_{}! returned normally after evaluating its path argument {} times", name, n)));
     }
     Outcome::Ok(Val::Unit)
 }
